@@ -118,8 +118,15 @@ def resolution_and_retarget_cases(ctx):
         a = [r.randint(0, 50) for _ in range(r.randint(1, 4))]
         b = [r.randint(100, 150) for _ in range(r.randint(1, 4))]
         ref = iso.PRef(iso.PSequence(a))
-        where = r.choice(["direct", "seq-item", "pdict-value", "operand", "stutter-input"])
-        if where == "direct":
+        where = r.choice(["direct", "seq-item", "pdict-value", "operand", "stutter-input", "ref-to-ref", "ref-to-ref-to-ref"])
+        if where == "ref-to-ref":
+            # a reference to a reference: re-targeting the INNER one is seen through the outer one
+            p = iso.PRef(ref)
+            slot = lambda v: v
+        elif where == "ref-to-ref-to-ref":
+            p = iso.PRef(iso.PRef(ref)) + 0
+            slot = lambda v: v
+        elif where == "direct":
             p = ref
             slot = lambda v: v
         elif where == "seq-item":
